@@ -131,7 +131,7 @@ func checkMain(args []string) int {
 		prog.embAllowed[e] = true
 	}
 	units, uerrs := prop.Build(prog, tier)
-	ro := RunOpts{Timeout: 10, Seed: seed, OutDir: outDir, Parallel: 4}
+	ro := RunOpts{Timeout: 20, Seed: seed, OutDir: outDir, Parallel: 4}
 	if tier == "thorough" {
 		ro.Timeout = 60
 		ro.CrossAll = true
